@@ -21,7 +21,7 @@ import core
 PRELUDE = '''From Coq Require Import ZArith QArith Qminmax List Bool.
 From DK Require Import Num NumQ Vec.
 From DK.Gen Require Import Kernels.
-From DK.Model Require Import Leaf Fn Dev Tree Projection PyOps SetOps FnOps ConOps ProbeEnc.
+From DK.Model Require Import Leaf Fn Dev Tree Projection PyOps SetOps FnOps ConOps Solve SolveOps ProbeEnc.
 Require DK.Gen.Classes.
 Require DK.Gen.%(name)s.
 Require DKC.%(name)sNew.
@@ -169,8 +169,41 @@ BATTERIES['Constraints'] = [
                               'enc_cons f6 (@M@.TwoRatioMFDeviceSet_constraints [] (2%nat, 3%nat) (2, -(1#2)) true) ++ enc_cons f6 (@M@.TwoRatioMFDeviceSet_constraints (ck_cons (kc 1 1)) (2%nat, 3%nat) (0, 3) false) ++ '
                               'enc_cons f6 (@M@.MFDeviceSet_constraints [] (ck_cons (kc 1 1)) (2%nat, 3%nat)) ++ enc_cons f12 (@M@.MFDeviceSet_constraints (ck_cons (kc 2 1)) (ck_cons (kc 1 2)) (4%nat, 3%nat))'),
 ]
-EXTRA = {'Constraints': KIDS + CONS, 'DeviceSet': KIDS, 'MFDeviceSet': KIDS, 'Functions': KIDS}
-NAMES = {'projection': 'Projection', 'thermal': 'Thermal', 'deviceset': 'DeviceSet', 'mfdeviceset': 'MFDeviceSet', 'functions': 'Functions', 'classes': 'Classes', 'storage': 'Storage', 'constraints': 'Constraints'}
+SOLVE = '''Definition enc_ores (o : optresult Q) : list Q := enc_b (o_success o) ++ [inject_Z (o_status o)] ++ enc_v (o_x o).
+Definition enc_sres (r : sres Q) : list Q :=
+  match r with SAccept x o => 0 :: enc_m x ++ match o with Some o => 1 :: enc_ores o | None => [0] end | SRaiseOptimization => [1] | SRaiseValueError => [2] end.
+Definition enc_stres (r : stres Q) : list Q :=
+  match r with StAccept x o => 0 :: enc_m x ++ enc_ores o | StRaiseOptimization => [1] | StRaiseValueError => [2] end.
+Definition dvA (b : list (Q * Q)) (cs : list (con Q)) : devview Q :=
+  {| dv_rows := 2; dv_n := 2; dv_bounds := b; dv_cost := fun s => vsum (map (fun v => v * v * v) s) + vsum s;
+     dv_deriv := fun s => reshape 2 2 (map (fun v => 3 * v * v + 1) s); dv_project := fun m => map (map (fun v => Qmax 0 (Qmin 1 v))) m; dv_cons := cs |}.
+(* an "optimiser" whose answer depends on everything it is handed *)
+Definition minA (succ : bool) (st : Z) (k : nat) (pb : problem Q) : optresult Q :=
+  {| o_success := succ; o_status := st;
+     o_x := firstn k (vadd (pb_x0 pb) (vadd (pb_jac pb (pb_x0 pb)) (map (fun lh => pb_fun pb (pb_x0 pb) + fst lh - snd lh + inject_Z (Z.of_nat (length (pb_cons pb)))) (pb_bounds pb)))) |}.
+Definition upA (succ : bool) (st : Z) (k : nat) (c : projcall Q) : optresult Q :=
+  {| o_success := succ; o_status := st; o_x := firstn k (vadd (map (fun v => v * (1#2)) (pc_p c)) (vadd (pc_x0 c) (map (fun lh => fst lh + inject_Z (Z.of_nat (length (pc_cons c)))) (pc_bounds c)))) |}.
+Definition lsA (succ : bool) (st : Z) (xs : list Q) (b : Q * Q) (phi : Q -> Q) : optresult Q :=
+  {| o_success := succ; o_status := st; o_x := map (fun x => x * (snd b - fst b) + fst b + phi (1#3) - phi (1#3)) xs |}.
+Definition conA : list (con Q) := [Build_con true (fun x => vsum x - 1) None; Build_con false (fun x => nth 0 x 0 - (1#2)) None].
+Definition bfix : list (Q * Q) := [(1#2, 1#2); (0, 0); (1#4, 1#4); (1#4, 1#4)].
+Definition bopen : list (Q * Q) := [(0, 1); (0, 0); (-1, 1); (1#4, 2)].
+'''
+BATTERIES['Solve'] = [
+  ('solver options', 'match so_ftol (@M@.solve_defaults_gen (A:=Q)), so_maxiter (@M@.solve_defaults_gen (A:=Q)), so_disp (@M@.solve_defaults_gen (A:=Q)) with Some f, Some m, Some d => [f; inject_Z m] ++ enc_b d | _, _, _ => [] end ++ '
+                     'match so_ftol (@M@.solve_options_gen {| so_ftol := Some (1#10); so_maxiter := None; so_disp := Some true |}), so_maxiter (@M@.solve_options_gen {| so_ftol := Some (1#10); so_maxiter := None; so_disp := Some true |}) with Some f, Some m => [f; inject_Z m] | _, _ => [] end'),
+  ('solve', 'List.concat (map (fun cfg => let \'(b, cs, s0, prox, succ, st, k) := cfg in enc_sres (@M@.solve_gen (minA succ st k) (dvA b cs) s0 prox)) '
+            '[(bfix, conA, None, None, true, 0%Z, 4%nat); (bfix, [Build_con false (fun x => vsum x - 2) None], None, None, true, 0%Z, 4%nat); (bfix, [Build_con true (fun x => vsum x - 1 - (1#2000000)) None], None, None, true, 0%Z, 4%nat); '
+            '(bfix, [Build_con true (fun x => vsum x - 1 - (1#500000)) None], None, None, true, 0%Z, 4%nat); (bfix, [Build_con false (fun x => vsum x - 1 - (1#2000000)) None], None, None, true, 0%Z, 4%nat); '
+            '(bopen, conA, None, None, true, 0%Z, 4%nat); (bopen, conA, Some [1; 0; 1#2; 1], None, true, 0%Z, 4%nat); (bopen, conA, None, Some 2, true, 0%Z, 4%nat); (bopen, conA, Some [1; 0; 1#2; 1], Some (1#2), true, 0%Z, 4%nat); '
+            '(bopen, conA, None, Some 0, true, 0%Z, 4%nat); (bopen, conA, None, None, false, 8%Z, 4%nat); (bopen, conA, None, None, false, 4%Z, 4%nat); (bopen, conA, None, None, false, 9%Z, 4%nat); (bopen, conA, None, None, true, 0%Z, 3%nat); '
+            '(bopen, conA ++ conA ++ [Build_con true (fun x => 0) None; Build_con true (fun x => 0) None; Build_con true (fun x => 0) None], None, None, true, 0%Z, 4%nat); (bopen, [], Some [1; 2; 3], None, true, 0%Z, 4%nat)])'),
+  ('step', 'List.concat (map (fun cfg => let \'(succ1, st1, k, succ2, st2, xs, t) := cfg in enc_stres (@M@.step_gen (upA succ1 st1 k) (lsA succ2 st2 xs) (dvA bopen conA) [1; 0; 1#2; 1] t)) '
+           '[(true, 0%Z, 4%nat, true, 0%Z, [1#2], 1); (true, 0%Z, 4%nat, true, 0%Z, [1], 2); (false, 8%Z, 4%nat, true, 0%Z, [1#4], 1#2); (false, 4%Z, 4%nat, true, 0%Z, [1#2], 1); (false, 9%Z, 4%nat, true, 0%Z, [1#2], 1); '
+           '(true, 0%Z, 3%nat, true, 0%Z, [1#2], 1); (true, 0%Z, 4%nat, false, 8%Z, [3#4], 1); (true, 0%Z, 4%nat, false, 5%Z, [1#2], 1); (true, 0%Z, 4%nat, true, 0%Z, [], 1); (true, 0%Z, 4%nat, true, 0%Z, [1#2; 1], 1); (true, 0%Z, 4%nat, true, 0%Z, [0], 3)])'),
+]
+EXTRA = {'Solve': SOLVE, 'Constraints': KIDS + CONS, 'DeviceSet': KIDS, 'MFDeviceSet': KIDS, 'Functions': KIDS}
+NAMES = {'projection': 'Projection', 'thermal': 'Thermal', 'deviceset': 'DeviceSet', 'mfdeviceset': 'MFDeviceSet', 'functions': 'Functions', 'classes': 'Classes', 'storage': 'Storage', 'constraints': 'Constraints', 'solve': 'Solve'}
 
 
 def supported(w):
